@@ -10,6 +10,18 @@ through one instance is stored in that instance (true) or in the shared cell (fa
 A setting is one integer knob (the harness uses a constant / a lookup table's height); a step adds the knob
 to the stock.  Settings persist in the instance across sessions (the scenario object keeps them); a new
 session resets clock, stock and log.
+
+Wave 2 — the rest of the server inside the machine:
+* `Server.own`: the server-level `bptk` object (`BptkServer._bptk`, one more product of the factory) that
+  `POST /run`, `/equations` and `/agents` use.  These requests are addressed to no instance: their *owner* is
+  `none`; `/run` settings persist in that object's scenario (or go to the shared cell).
+* instances are created **during** the history (`create`; ids are the labels the harness gives to the uuids in
+  creation order) — `Server.init k` still starts with `k` instances — and stopped during it.
+* an external state adapter (`Server.ad`): `run-step` externalises the instance's session (`Inst.saved`);
+  `expire` removes the instance from memory but not its externalised state; every later instance request
+  restores it lazily (`revive`: a NEW factory product, the saved session, the session's settings re-applied and
+  its steps replayed — `bptk._set_state`); `stop` deletes the externalised state as well.
+* `begin-session` carries settings too (`beginSession (some v)`), as `run-step` does.
 -/
 namespace Bptk.C16
 
@@ -18,25 +30,31 @@ structure Cfg where
 deriving DecidableEq, Repr
 
 inductive Req where
-  | beginSession
+  | beginSession (setting : Option Int)
   | runStep (setting : Option Int)
   | results
   | endSession
   | keepAlive
   | stop
   | expire                 -- the instance's timeout elapses and a sweep removes it
+  | create                 -- POST /start-instance; the new instance gets this id
+  | run (setting : Option Int)   -- POST /run on the server-level bptk
+  | equations              -- POST /equations
+  | agents                 -- POST /agents
 deriving DecidableEq, Repr
 
 structure Sess where
   clock : Nat
   stock : Int
   log : List (Nat × Int)
+  sknob : Option Int       -- the last setting applied within this session (what a replay re-applies)
 deriving DecidableEq, Repr
 
 structure Inst where
   alive : Bool
   knob : Int
   sess : Option Sess
+  saved : Option Sess      -- the externalised session state of this id (external state adapter)
 deriving DecidableEq, Repr
 
 inductive Resp where
@@ -49,63 +67,139 @@ inductive Resp where
   | timerReset
   | deleted
   | swept                                    -- (no response: the expiry is not a request)
+  | created
+  | ran (knob : Int)                         -- /run: the results are a function of the knob the run reads
+  | names                                    -- /equations
+  | noAgents                                 -- /agents on an SD model: 500 "expecting the model to have agents"
+  | saveError                                -- run-step without session under an adapter: the state cannot be externalised
 deriving DecidableEq, Repr
 
-def Inst.fresh : Inst := { alive := true, knob := 1, sess := none }
+def Inst.fresh : Inst := { alive := true, knob := 1, sess := none, saved := none }
+
+/-- apply a setting: to the object's own scenario, or to what all factory products share.
+Returns (shared cell, own knob, the knob a simulation reads). -/
+def applySetting (c : Cfg) (g : Int) (knob : Int) (setting : Option Int) : Int × Int × Int :=
+  if c.instancesShareNothing then (g, setting.getD knob, setting.getD knob)
+  else (setting.getD g, knob, setting.getD g)
+
+/-- `_ensure_instance_exists`: an instance that is not in memory is restored from the adapter, if there is one
+and it holds a state for the id: new factory product, saved session, settings re-applied / steps replayed. -/
+def revive (c : Cfg) (ad : Bool) (g : Int) (x : Inst) : Int × Inst :=
+  if x.alive then (g, x) else
+  if ad then
+    match x.saved with
+    | some s => ((applySetting c g 1 s.sknob).1,
+                 { x with alive := true, knob := (applySetting c g 1 s.sknob).2.1, sess := some s })
+    | none => (g, x)
+  else (g, x)
+
+def orElse (a b : Option Int) : Option Int := match a with | some v => some v | none => b
 
 /-- `run-step` on a live instance with session `s`. -/
-def runStep (c : Cfg) (g : Int) (x : Inst) (s : Sess) (setting : Option Int) : Int × Inst × Resp :=
-  -- apply the setting: to the instance's own scenario, or to what all instances share
-  let g' := if c.instancesShareNothing then g else setting.getD g
-  let knobOwn := if c.instancesShareNothing then setting.getD x.knob else x.knob
-  let k := if c.instancesShareNothing then knobOwn else g'
-  (g', { x with knob := knobOwn,
-                sess := some { clock := s.clock + 1, stock := s.stock + k, log := s.log ++ [(s.clock, s.stock)] } },
-   .stepped s.clock s.stock k)
+def runStep (c : Cfg) (ad : Bool) (g : Int) (x : Inst) (s : Sess) (setting : Option Int) : Int × Inst × Resp :=
+  let a := applySetting c g x.knob setting
+  let s' : Sess := { clock := s.clock + 1, stock := s.stock + a.2.2, log := s.log ++ [(s.clock, s.stock)],
+                     sknob := orElse setting s.sknob }
+  (a.1, { x with knob := a.2.1, sess := some s', saved := if ad then some s' else x.saved },
+   .stepped s.clock s.stock a.2.2)
 
-/-- one request on one instance.  `g` is the process-wide cell. -/
-def stepInst (c : Cfg) (g : Int) (x : Inst) : Req → Int × Inst × Resp
-  | .stop => (g, { x with alive := false, sess := none }, .deleted)
+/-- one request on one (existing) instance.  `g` is the process-wide cell, `ad`: an adapter is configured. -/
+def stepInst (c : Cfg) (ad : Bool) (g : Int) (x : Inst) : Req → Int × Inst × Resp
+  | .stop => (g, { x with alive := false, sess := none, saved := none }, .deleted)
   | .expire => (g, { x with alive := false, sess := none }, .swept)
-  | .beginSession =>
-      if x.alive then (g, { x with sess := some { clock := 0, stock := 0, log := [] } }, .started) else (g, x, .invalid)
+  | .create => (g, x, .invalid)
+  | .run _ => (g, x, .invalid)
+  | .equations => (g, x, .invalid)
+  | .agents => (g, x, .invalid)
+  | .beginSession setting =>
+      let r := revive c ad g x
+      if r.2.alive then
+        let a := applySetting c r.1 r.2.knob setting
+        (a.1, { r.2 with knob := a.2.1, sess := some { clock := 0, stock := 0, log := [], sknob := setting } }, .started)
+      else (r.1, r.2, .invalid)
   | .runStep setting =>
-      if x.alive then
-        (match x.sess with
-         | none => (g, x, .noData)
-         | some s => runStep c g x s setting)
-      else (g, x, .invalid)
-  | .results => if x.alive then (g, x, .results ((x.sess.map (·.log)).getD [])) else (g, x, .invalid)
-  | .endSession => if x.alive then (g, { x with sess := none }, .ended) else (g, x, .invalid)
-  | .keepAlive => if x.alive then (g, x, .timerReset) else (g, x, .invalid)
+      let r := revive c ad g x
+      if r.2.alive then
+        (match r.2.sess with
+         | none => (r.1, r.2, if ad then .saveError else .noData)
+         | some s => runStep c ad r.1 r.2 s setting)
+      else (r.1, r.2, .invalid)
+  | .results =>
+      let r := revive c ad g x
+      if r.2.alive then (r.1, r.2, .results ((r.2.sess.map (·.log)).getD [])) else (r.1, r.2, .invalid)
+  | .endSession =>
+      let r := revive c ad g x
+      if r.2.alive then (r.1, { r.2 with sess := none }, .ended) else (r.1, r.2, .invalid)
+  | .keepAlive =>
+      let r := revive c ad g x
+      if r.2.alive then (r.1, r.2, .timerReset) else (r.1, r.2, .invalid)
+
+/-- a request on the server-level bptk object -/
+def stepOwn (c : Cfg) (g : Int) (x : Inst) : Req → Int × Inst × Resp
+  | .run setting =>
+      let a := applySetting c g x.knob setting
+      (a.1, { x with knob := a.2.1 }, .ran a.2.2)
+  | .equations => (g, x, .names)
+  | .agents => (g, x, .noAgents)
+  | _ => (g, x, .invalid)
+
+def Req.serverLevel : Req → Bool
+  | .run _ => true
+  | .equations => true
+  | .agents => true
+  | _ => false
 
 structure Server where
   g : Int
-  insts : List Inst
-deriving DecidableEq, Repr
+  ad : Bool
+  own : Inst
+  insts : Nat → Option Inst
 
-def Server.init (k : Nat) : Server := { g := 1, insts := List.replicate k Inst.fresh }
+def Server.initAd (k : Nat) (ad : Bool) : Server :=
+  { g := 1, ad := ad, own := Inst.fresh, insts := fun i => if i < k then some Inst.fresh else none }
 
-/-- a request addressed to instance `id` (ids are positions: the harness maps uuids to creation order). -/
+def Server.init (k : Nat) : Server := Server.initAd k false
+
+def updFn {α : Type} (f : Nat → α) (k : Nat) (v : α) : Nat → α := fun x => if x = k then v else f x
+
+/-- a request naming an id that does not exist: only `create` does something -/
+def stepNone (s : Server) (i : Nat) : Req → Server × Option Resp
+  | .create => ({ s with insts := updFn s.insts i (some Inst.fresh) }, some .created)
+  | _ => (s, none)
+
+/-- a request; instance requests are addressed to instance `op.1`, server-level requests ignore it. -/
 def step (c : Cfg) (s : Server) (op : Nat × Req) : Server × Option Resp :=
-  match s.insts[op.1]? with
-  | none => (s, none)
-  | some x =>
-      let r := stepInst c s.g x op.2
-      ({ g := r.1, insts := s.insts.set op.1 r.2.1 }, some r.2.2)
+  if op.2.serverLevel then
+    let r := stepOwn c s.g s.own op.2
+    ({ s with g := r.1, own := r.2.1 }, some r.2.2)
+  else
+    match s.insts op.1 with
+    | none => stepNone s op.1 op.2
+    | some x =>
+        let r := stepInst c s.ad s.g x op.2
+        ({ s with g := r.1, insts := updFn s.insts op.1 (some r.2.1) }, some r.2.2)
 
-/-- responses to a request sequence, each tagged with the instance it was addressed to. -/
-def resps (c : Cfg) : Server → List (Nat × Req) → List (Nat × Option Resp)
+/-- whom a request belongs to: an instance, or (`none`) the server-level object -/
+def owner (op : Nat × Req) : Option Nat := if op.2.serverLevel then none else some op.1
+
+/-- responses to a request sequence, each tagged with its owner. -/
+def resps (c : Cfg) : Server → List (Nat × Req) → List (Option Nat × Option Resp)
   | _, [] => []
-  | s, op :: rest => (op.1, (step c s op).2) :: resps c (step c s op).1 rest
+  | s, op :: rest => (owner op, (step c s op).2) :: resps c (step c s op).1 rest
 
 def final (c : Cfg) : Server → List (Nat × Req) → Server
   | s, [] => s
   | s, op :: rest => final c (step c s op).1 rest
 
-def proj (i : Nat) (ops : List (Nat × Req)) : List (Nat × Req) := ops.filter (fun o => o.1 == i)
+def proj (t : Option Nat) (ops : List (Nat × Req)) : List (Nat × Req) := ops.filter (fun o => owner o == t)
 
-def respsOf (i : Nat) (l : List (Nat × Option Resp)) : List (Option Resp) :=
-  (l.filter (fun o => o.1 == i)).map (·.2)
+def respsOf (t : Option Nat) (l : List (Option Nat × Option Resp)) : List (Option Resp) :=
+  (l.filter (fun o => o.1 == t)).map (·.2)
+
+/-- the part of the server a target owns -/
+def comp (t : Option Nat) (s : Server) : Option Inst :=
+  match t with
+  | some i => s.insts i
+  | none => some s.own
 
 end Bptk.C16
